@@ -140,12 +140,13 @@ class CoqLock:
     """flock on coq/.lock[.<name>]: the global lock protects _CoqProject/Makefile generation and the shared
     common/ targets; a per-property lock serialises builds of one property's files only."""
 
-    def __init__(self, name=""):
+    def __init__(self, name="", shared=False):
         self.path = os.path.join(COQ, ".lock" + ("." + name if name else ""))
+        self.shared = shared
 
     def __enter__(self):
         self.f = open(self.path, "w")
-        fcntl.flock(self.f, fcntl.LOCK_EX)
+        fcntl.flock(self.f, fcntl.LOCK_SH if self.shared else fcntl.LOCK_EX)
         return self
 
     def __exit__(self, *a):
@@ -192,9 +193,24 @@ def _lock_name(targets):
     return "misc"
 
 
-def coq_make(targets, timeout=1500, clean=False):
-    """Full .vo build of the given targets (paths relative to coq/). Returns (ok, log)."""
+def coq_make(targets, timeout=1500, clean=False, exclusive=False):
+    """Full .vo build of the given targets (paths relative to coq/). Returns (ok, log).
+    Property builds hold the 'linkgate' lock shared; a cross-property build (Link_*.v, which may have to
+    rebuild several properties' files) holds it exclusively, so the two kinds never write the same .vo
+    at the same time."""
     t0 = time.time()
+    if exclusive:
+        with CoqLock("linkgate"):
+            with CoqLock():
+                coq_prepare()
+            rc, so, se, dt = run(["timeout", str(timeout), "make", "-j16"] + list(targets), cwd=COQ, timeout=timeout + 30)
+        log("coq make (exclusive) %s: rc=%d %.1fs (%.1fs incl. locks)" % (" ".join(targets)[:120], rc, dt, time.time() - t0))
+        return rc == 0, so + se
+    with CoqLock("linkgate", shared=True):
+        return _coq_make_property(targets, timeout, clean, t0)
+
+
+def _coq_make_property(targets, timeout, clean, t0):
     with CoqLock():
         coq_prepare()
         if clean:
@@ -212,8 +228,22 @@ def coq_make(targets, timeout=1500, clean=False):
 def coq_compile_capture(vfile, timeout=600):
     """Recompile one file (relative to coq/) and return (ok, stdout+stderr) - used for *_Props.v so that
     `Print Assumptions` output is captured on every run."""
-    with CoqLock(_lock_name([vfile])):
-        rc, so, se, dt = run(["timeout", str(timeout), "coqc", "-Q", ".", "Dae", vfile], cwd=COQ, timeout=timeout + 30)
+    # The output goes to a scratch .vo so that the real one keeps its time stamp (files that depend on it,
+    # e.g. the Link_*.v compositions, are not rebuilt on every run).
+    d = os.path.join(COQ, "cases")
+    os.makedirs(d, exist_ok=True)
+    tmp = os.path.join(d, "capture_%d_%s.vo" % (os.getpid(), os.path.basename(vfile)[:-2]))
+    with CoqLock("linkgate", shared=True):
+        rc, so, se, dt = run(["timeout", str(timeout), "coqc", "-Q", ".", "Dae", "-o", tmp, vfile], cwd=COQ, timeout=timeout + 30)
+    for ext in ("", "k", "s"):
+        try:
+            os.remove(tmp + ext)
+        except OSError:
+            pass
+    try:
+        os.remove(tmp[:-3] + ".glob")
+    except OSError:
+        pass
     return rc == 0, so + se
 
 
